@@ -176,7 +176,7 @@ structure PT where
   deriving DecidableEq, Repr
 
 def hasDupNames (h : Heap) (is : List Nat) : Bool :=
-  let names := is.filterMap fun i => h[i]?.map (·.name)
+  let names := is.map fun i => h[i]?.map (·.name)
   !(names.eraseDups.length == names.length)
 
 def assemble (h : Heap) (m : Nat) (fuel : Nat) : Except Err PT :=
